@@ -70,7 +70,7 @@ def handle : List Sexp → Option Sexp
       match ss.mapM decS with
       | none => some (.atom "unmodelled")
       | some body => some (.list [.atom "ok", .list ((xformS body).map encS)])
-  | [.atom "specS", .list ss] =>
+  | [.atom "pySpecS", .list ss] =>
       match ss.mapM decS with
       | none => some (.atom "unmodelled")
       | some body =>
@@ -80,7 +80,7 @@ def handle : List Sexp → Option Sexp
       match ss.mapM decS with
       | none => some (.atom "unmodelled")
       | some body => some (.list [.atom "ok", .list ((unxfB (xformS body)).map encS)])
-  | [.atom "scopes", .list ss] =>
+  | [.atom "freeGlobals", .list ss] =>
       match ss.mapM decS with
       | none => some (.atom "unmodelled")
       | some body => some (.list [.atom "ok", encTree (freeGlobals body), encTree (scopeTree (xformS body))])
